@@ -9,6 +9,7 @@ import RxVerif.Conc.HandoffCosim
 import RxVerif.Conc.SubjCosim
 import RxVerif.Conc.LockOrder
 import RxVerif.Conc.Timed
+import RxVerif.Conc.TimedCosim
 import RxVerif.Spec.CombEval
 open Rx
 
@@ -121,6 +122,7 @@ def cosimLine (model : String) (line : String) : String :=
     | _ => id ++ " REJECT malformed payload"
   | "handoff" => id ++ Handoff.Cosim.cosim payload
   | "subjlts" => id ++ Conc.SubjCosim.cosim payload
+  | "timed" => id ++ Timed.Cosim.cosim payload
   | "sctl" | "take" | "amb" | "zip" => id ++ Conc.sctlCosimPayload model payload
   | _ => id ++ " REJECT unknown model"
 
